@@ -495,7 +495,11 @@ pub fn gen_program(rng: &mut Rng, gc: &GenCfg) -> Program {
                 }
                 9 => Op::Compute(k, CFn::Remove, 0),
                 10 | 11 => {
-                    let pred = match rng.below(8) {
+                    let pred = match rng.below(9) {
+                        8 => {
+                            next_vid += 1;
+                            Pred::ReinsertReject(*rng.pick(&hot), next_vid)
+                        }
                         0 => Pred::KeyMod(2, rng.below(2) as u32),
                         1 => Pred::ValEven,
                         2 => Pred::DropAll,
